@@ -559,17 +559,24 @@ static void sc_io(const Case &c) {
         {
           OpScope sc;
           if (kind == 0) {
-            InItem d;
-            d.t = IN_DATA;
-            d.data = "hello world, this is data";
-            d.delay = 500;
-            K().push_in(fd, d);
-            r->cookie = s_network_read(fd, rbuf, sizeof rbuf, (size_t)(A(1) & 7), io_cb, r.get());
+            // the data arrives in three fragments, so that a read with a larger minimum has to re-arm itself
+            static const char *FR[] = {"hel", "lo world, this ", "is data"};
+            for (int fi = 0; fi < 3; fi++) {
+              InItem d;
+              d.t = IN_DATA;
+              d.data = FR[fi];
+              d.delay = 500;
+              K().push_in(fd, d);
+            }
+            r->cookie = s_network_read(fd, rbuf, sizeof rbuf, (size_t)((A(1) & 7) * 3), io_cb, r.get());
           } else if (kind == 1) {
             OutItem o1;
             o1.t = OUT_ACCEPT;
             o1.n = 5;
             K().push_out(fd, o1);
+            OutItem o2;
+            o2.t = OUT_EAGAIN;
+            K().push_out(fd, o2);
             r->cookie = s_network_write(fd, wbuf, sizeof wbuf, sizeof wbuf, io_cb, r.get());
           } else if (kind == 2) {
             AccItem a1;
@@ -626,6 +633,26 @@ static void sc_io(const Case &c) {
       if (r->kind == 3) s_network_connect_cancel(r->cookie);
       r->done = true;
     }
+  }
+  // A read or write whose continuation could not be re-armed must be told so (callback with -1): once the allocator has
+  // recovered (single-failure mode), running the loop must bring every read/write that was accepted to its callback.
+  if (VV->ok && !aw::S().persistent) {
+    for (int i = 0; i < 400; i++) {
+      bool pend = false;
+      for (auto &r : reqs)
+        if (!r->refused && !r->done && r->kind <= 1) pend = true;
+      if (!pend) break;
+      OpScope sc;
+      K().stuck = false;
+      int rc = s_events_run();
+      if (rc != 0) MUST_BE_INJECTED(sc, "events_run");
+      if (K().stuck) break;
+    }
+    for (auto &r : reqs)
+      if (!r->refused && !r->done && r->kind <= 1 && VV->ok)
+        VV->fail("request-abandoned", std::string(r->kind ? "network_write" : "network_read") +
+                                          " request was accepted, its data is available, the allocator has recovered, but it was never called back "
+                                          "(a failure to continue must be reported through the callback)");
   }
   for (auto &r : reqs)
     if (!r->refused && !r->done) {
